@@ -20,7 +20,7 @@ from specs import steppers as SS
 from specs.base import T, arr, csum, kappa, pick, rsum, wshape
 from symjnp import engine, ops, rules, smt, sym, values
 from symjnp.contracts import Case, Contract, ObjSpec, make_instance
-from symjnp.smt import CX
+from symjnp.smt import CX, OutsideSubset
 from symjnp.values import SArr, const_arr
 
 U = "exponax._utils."
@@ -199,9 +199,22 @@ P_BASE = {"C01", "C02", "C08", "C09", "C10", "C11", "C12", "C13", "C14", "C20"}
 Contract(BQ + "step_fourier", props=P_BASE,
          cases=[Case(f"D={D}", lambda e, D=D: ((lambda o: (o[0], sym.array(e, "uh", (o[2],) + wshape(D, o[1]), "complex")))(_base_self(e, D)), {})) for D in DIMS],
          spec=lambda self, u_hat: self._integrator.step_fourier(u_hat))
+def _sf_spec(self, uh):
+    """what `self.step_fourier` is documented to do (the method is virtual: Wave has its own)"""
+    if isinstance(self, Wave):
+        return _wave_step_spec(self, uh)
+    if not any("step_fourier" in vars(c) for c in type(self).__mro__ if c is not BaseStepper and isinstance(c, type) and issubclass(c, BaseStepper)):
+        return self._integrator.step_fourier(uh)       # inherited: the integrator's step (contract of BaseStepper.step_fourier)
+    raise OutsideSubset(f"{type(self).__name__} overrides step_fourier and has no contract for it")
+
+
+def _step_spec(self, u):
+    return S.ifft(_sf_spec(self, S.fft(u, self.num_spatial_dims)), self.num_spatial_dims, self.num_points)
+
+
 Contract(BQ + "step", props=P_BASE,
          cases=[Case(f"D={D}", lambda e, D=D: ((lambda o: (o[0], sym.array(e, "u", (o[2],) + (o[1],) * D)))(_base_self(e, D)), {})) for D in DIMS],
-         spec=lambda self, u: S.ifft(self._integrator.step_fourier(S.fft(u, self.num_spatial_dims)), self.num_spatial_dims, self.num_points))
+         spec=_step_spec)
 
 
 def _call_cases(mk_self, state_name="u"):
@@ -247,7 +260,7 @@ def _shape_neq(shape, expected):
 
 Contract(BQ + "__call__", props=P_BASE, cases=_call_cases(_base_self),
          raises=[(ValueError, lambda self, u: _shape_neq(u.shape, (self.num_channels,) + (self.num_points,) * self.num_spatial_dims))],
-         spec=lambda self, u: S.ifft(self._integrator.step_fourier(S.fft(u, self.num_spatial_dims)), self.num_spatial_dims, self.num_points))
+         spec=_step_spec)
 
 
 # ============================================================================================ Wave
@@ -298,10 +311,49 @@ def _wave_step_spec(self, u_hat):
     return arr(u_hat.shape, fn, "complex")
 
 
-Contract("exponax.stepper._wave.Wave.step_fourier", props={"C01", "C08", "C11"},
+Contract("exponax.stepper._wave.Wave.step_fourier", props={"C01", "C08", "C11", "C14"},   # (C14: the wrappers sub-step an inner stepper through step_fourier)
          cases=[Case(f"D={D}", lambda e, D=D: (_wave_self(e, D), {})) for D in DIMS],
          requires=lambda self, u_hat: [("speed_of_sound != 0", smt.rne(T(self.speed_of_sound), 0))],
          spec=_wave_step_spec)
+
+
+# ------------------------------------------------- every stepper class: step / __call__ agree with step_fourier
+def _register_override_contracts():
+    """BaseStepper.step is ifft o step_fourier o fft and __call__ is step behind the shape check (contracts above); the
+    wrappers of C14 rely on that for EVERY inner stepper.  A stepper class that overrides `step` or `__call__` gets the
+    same post-condition here (nothing is registered while no class overrides them -- the case on the pinned tree)."""
+    import exponax.stepper as _ST
+    from exponax.stepper import generic as _G, reaction as _RX
+    from symjnp import contracts as _CT
+    classes = sorted({c for mod in (_ST, _G, _RX) for c in vars(mod).values() if isinstance(c, type) and issubclass(c, BaseStepper) and c is not BaseStepper},
+                     key=lambda c: (c.__module__, c.__qualname__))
+    done = set()
+    for cls in classes:
+        for meth in ("step", "__call__"):
+            owner = next(k for k in cls.__mro__ if meth in vars(k))
+            if owner is BaseStepper or (owner, meth) in done:
+                continue
+            done.add((owner, meth))
+            q = f"{owner.__module__}.{owner.__qualname__}.{meth}"
+            if q in _CT.REGISTRY:
+                continue
+
+            def mk(e, D, owner=owner):
+                if issubclass(owner, Wave):
+                    obj, _ = _wave_self(e, D)
+                    return obj, obj.num_points, 2
+                return _base_self(e, D, cls=owner)
+
+            spec = _step_spec
+            if meth == "step":
+                Contract(q, props={"C01", "C14", "C20"},
+                         cases=[Case(f"D={D}", lambda e, D=D, mk=mk: ((lambda o: (o[0], sym.array(e, "u", (o[2],) + (o[1],) * D)))(mk(e, D)), {})) for D in DIMS], spec=spec)
+            else:
+                Contract(q, props={"C01", "C14", "C20"}, cases=_call_cases(mk),
+                         raises=[(ValueError, lambda self, u: _shape_neq(u.shape, (self.num_channels,) + (self.num_points,) * self.num_spatial_dims))], spec=spec)
+
+
+_register_override_contracts()
 
 
 # ========================================================================================== Poisson
